@@ -30,7 +30,7 @@ Definition frun_t (minimize : bool) (mult : float) (r : nat) (iters : nat) (lbl 
 '''
 
 
-def run_real_fit(xr, iters_loop, iters_arg, scores, metric, early_stop, mult, return_best, ctor_iters=None, ctor_metric=None, timeout_round=None):
+def run_real_fit(xr, iters_loop, iters_arg, scores, metric, early_stop, mult, return_best, ctor_iters=None, ctor_metric=None, timeout_round=None, return_Ms=False):
     """returns dict(w=(i,m,bw), m=, sqrtm=, bw=, best_iter=, evals=, solves=, crashed=).
     `metric` is the metric in force during the fit; when ctor_metric is given the object is CONSTRUCTED with ctor_metric and
     `metric` is passed to fit(tuning_metric=...) (the documented override), otherwise it is given to the constructor only."""
@@ -84,7 +84,7 @@ def run_real_fit(xr, iters_loop, iters_arg, scores, metric, early_stop, mult, re
             _rfm_mod.time = fake_time
         m.fit((X, y), (X, y), iters=iters_arg, reg=1e-3, return_best_params=return_best, early_stop_rfm=early_stop,
               early_stop_multiplier=mult, verbose=False, **({} if ctor_metric is None else dict(tuning_metric=metric)),
-              **({} if timeout_round is None else dict(callback=_cb)))
+              **({} if timeout_round is None else dict(callback=_cb)), **(dict(return_Ms=True) if return_Ms else {}))
     except Exception as e:      # restore with best_alphas None etc.
         out['crashed'] = repr(e)
         out['evals'] = st['evals']
